@@ -3,7 +3,9 @@
 //! schedules.  Every transition of the real thread is validated against the Lean model:
 //!   * a collector increment must be exactly `gcStep` of the model          (`gc step before after`)
 //!   * a VM instruction (and a host-call service) must satisfy the contract  (`gc mut before after`)
-//! so the whole real execution is a `Run` of the model, to which theorem C06_gc_safe applies.
+//! so every observed transition is a `Step` of the model from the observed before-state; theorem
+//! C06_gc_safe_from then applies from any observed state satisfying the invariant (the first observed
+//! state is not compared with the model's `init`: the run is validated transition by transition).
 //! Independently (search for a concrete failing input): reachability ⊆ heap list is checked on every
 //! snapshot in Rust, and the program's output under each schedule and under the real pacing is
 //! compared with its output with collection disabled.
